@@ -868,7 +868,7 @@ pub fn run(args: &Args, rec: &mut Recorder) {
     let g = Grammar::load_default();
     let cases = enumerate_cases(&g);
     let n_sys = cases.len() as u64;
-    let n_rand: u64 = if args.thorough { 500_000 } else { 10_000 };
+    let n_rand: u64 = if args.thorough { 500_000 } else { 40_000 };
     if args.shard == 0 {
         rec.extra.insert("systematic_cases".into(), Json::UInt(n_sys));
         rec.extra.insert("exhaustive".into(), Json::Bool(false));
